@@ -459,7 +459,28 @@ def lstrip_descs(view):
 # --------------------------------------------------------------------------------------
 # Running the implementation
 # --------------------------------------------------------------------------------------
+def _class_state(cls):
+    return dict((k, v) for k, v in vars(cls).items() if isinstance(v, (dict, list, set)) and not k.startswith('__'))
+
+
+# mutable class-level attributes of the message classes as they are right after import: restored before
+# every execution, so that executions are independent of each other whatever such state exists
+_PRISTINE = [(c, dict((k, type(v)(v)) for k, v in _class_state(c).items()))
+             for c in (message.Position, message.MessageLogger)]
+
+
+def reset_class_state():
+    for cls, saved in _PRISTINE:
+        for k, v in _class_state(cls).items():
+            if k in saved:
+                v.clear()
+                (v.update if not isinstance(v, list) else v.extend)(saved[k])
+            else:
+                v.clear()
+
+
 def _logger(warnings=True):
+    reset_class_state()
     message.MessageLogger._instance = None
     lg = RecLogger(output=io.StringIO())
     lg.enable_warnings(warnings)
@@ -480,8 +501,31 @@ def parse(text, filename='/src/foo.c', lineno=100, warnings=True):
     return b, lg.records, exc
 
 
-def parse_many(comments, warnings=True):
-    """parse_comment_blocks on [(text, file, line)].  -> (dict|None, records, count, output, exception|None)"""
+def parse_many(comments, warnings=True, cwd=None):
+    """parse_comment_blocks on [(text, file, line)].  -> (dict|None, records, count, output, exception|None)
+    With `cwd` the process (and therefore the logger, which reads os.getcwd()) works in that directory."""
+    old = os.getcwd()
+    if cwd is not None:
+        os.chdir(cwd)
+    try:
+        return _parse_many(comments, warnings)
+    finally:
+        if cwd is not None:
+            os.chdir(old)
+
+
+def printed_locations(output):
+    """[(path as printed, line, 'Warning'|'Error')] of the diagnostics in a logger's output text."""
+    return [(m.group(1), int(m.group(2)), m.group(3))
+            for m in re.finditer(r'^(.*?):(\d+): (Warning|Error): ', output, re.M)]
+
+
+def names_file(printed, cwd, filename):
+    """Does the printed path, read relative to the logger's working directory, name `filename`?"""
+    return os.path.realpath(os.path.join(cwd, printed)) == os.path.realpath(filename)
+
+
+def _parse_many(comments, warnings=True):
     lg = _logger(warnings)
     try:
         blocks = AP.GtkDocCommentBlockParser().parse_comment_blocks(list(comments))
